@@ -17,6 +17,7 @@ mod lru;
 mod order;
 mod poly;
 mod table;
+mod vtree;
 
 pub type CaseResult = Result<(), String>;
 
@@ -32,6 +33,7 @@ pub fn run_case(c: &Value) -> CaseResult {
         "lru_seq" => lru::run(c),
         "poly_ops" => poly::run(c),
         "dtree_cnf" => dtree::run(c),
+        "vtree_mgr" => vtree::run(c),
         "lat_eu" | "lat_real" | "lat_bool" | "lat_rational" => lattice::run(c),
         "compile_expr" | "compile_cnf" | "compile_sdd" => compile::run(c),
         _ => Err(format!("unknown case kind {kind}")),
@@ -86,6 +88,7 @@ fn main() {
                 "lru" => lru::candidates(seed),
                 "poly" => poly::candidates(seed),
                 "dtree" => dtree::candidates(seed),
+                "vtree" => vtree::candidates(seed),
                 "lattice" => lattice::candidates(seed),
                 "compile" => compile::candidates(seed),
                 _ => vec![],
